@@ -58,6 +58,7 @@ fn registry(id: &str) -> Option<(&'static str, RunFn, ReplayFn)> {
         "C14" => ("C14", props::c14::run, props::c14::replay),
         "C15" => ("C15", props::c15::run, props::c15::replay),
         "C17" => ("C17", props::c17::run, props::c17::replay),
+        "C18" => ("C18", props::c18::run, props::c18::replay),
         "C19" => ("C19", props::c19::run, props::c19::replay),
         "C02" => ("C02", props::c02::run, props::c02::replay),
         "C03" => ("C03", props::c03::run, props::c03::replay),
